@@ -440,30 +440,33 @@ mod validity {
 }
 
 /// Verification-only entry points (feature `trustfall_verif`).
+///
+/// Results are returned as they are (not reduced to booleans) so that a harness can decide
+/// what to do with the error values.
 #[cfg(feature = "trustfall_verif")]
 pub mod verif_hooks {
     use crate::{
+        frontend::error::FilterTypeError,
         graphql_query::directives::OperatorArgument,
         ir::{Argument, LocalField, Operation, Type},
     };
 
     /// The variable type the frontend infers for a `$variable` used as the argument of
-    /// the given operator on a property of the given type. `None` if the frontend refuses.
-    pub fn infer_variable_type(property_type: Type, operation: &Operation<(), ()>) -> Option<Type> {
+    /// the given operator on a property of the given type.
+    pub fn infer_variable_type(
+        property_type: Type,
+        operation: &Operation<(), ()>,
+    ) -> Result<Type, Box<FilterTypeError>> {
         let operation = operation.map(|_| (), |_| OperatorArgument::VariableRef("v".into()));
-        super::infer_variable_type("p", property_type, &operation).ok()
+        super::infer_variable_type("p", property_type, &operation)
     }
 
-    /// Whether the frontend's operand type check accepts the given filter.
-    pub fn operand_types_valid(operation: &Operation<LocalField, Argument>) -> bool {
-        super::operand_types_valid(operation, None).is_ok()
-    }
-
-    /// Same, for a filter whose argument is the tag with the given name.
-    pub fn operand_types_valid_with_tag(
+    /// The frontend's operand type check for the given filter; `tag_name` is the name of
+    /// the tag when the filter's argument is a tag.
+    pub fn operand_types_valid(
         operation: &Operation<LocalField, Argument>,
-        tag_name: &str,
-    ) -> bool {
-        super::operand_types_valid(operation, Some(tag_name)).is_ok()
+        tag_name: Option<&str>,
+    ) -> Result<(), Vec<FilterTypeError>> {
+        super::operand_types_valid(operation, tag_name)
     }
 }
